@@ -104,7 +104,9 @@ def cases(tier, rng):
       ['none', 'pos', 'kw', 'reqpos', 'reqkw']):
     leaf = _ref('K' if shape_i % 2 else 'p0', scope, ev)
     yield {'mode': 'seq', 'via': None,
-           'bind': [['', 'x', _shapes(leaf)[shape_i]], ['', 'y', _ref('p0', '', True)]],
+           'bind': [['', 'x', _shapes(leaf)[shape_i]], ['', 'y', _ref('p0', '', True)],
+                    ['', 'z', {'t': 'dict', 'k': ['k0'], 'i': [{'t': 'list', 'i': [
+                        {'t': 'lit', 'v': 1}]}]}]],
            'calls': [{'amb': amb, 'ov': {'x': kind, 'y': 'none', 'z': 'none'},
                       'outer': False, 'mut': True, 'callrefs': shape_i == 5},
                      {'amb': [], 'ov': {'x': 'none', 'y': 'kw', 'z': 'none'},
@@ -505,7 +507,7 @@ def _run_shared(fails):
   bind_parameter).  deepcopy memoises by id, so one run per consumer call may serve
   both occurrences; the property only requires runs made anew for every call."""
   w = _World()
-  ref = gin.parse_value('@a/p0()')
+  ref = gc.parse_value('@a/p0()')
   gin.bind_parameter('cons.x', [ref, {'k': ref}])
   for amb in ([], ['s']):
     lo = len(w.log)
